@@ -582,7 +582,9 @@ open Nx.L1 Nx.Prudp in
     receiver on substream `sub`. A history is any sequence of: an application `send` at either end — as one step, or fragment
     by fragment (`beginA`, `fragA`, …) with anything either end or the network does in between —, a keep-alive of either end, the delivery (through `handle`: gates, acknowledgement, window, release loop) of ANY packet either end has ever
     emitted to the other end — any order, any number of times, never = loss —, any acknowledgement arriving at either
-    end, a retransmission timer of either end firing, any packet with a signature its receiver does not expect at either end. In every state such a history reaches, what B's application can read
+    end, a retransmission timer of either end firing, any packet with a signature its receiver does not expect at either end, a graceful `disconnect()` of either end, and —
+    since `sub` is any substream — sends of either end on the OTHER substreams and any ordinary packet of another substream
+    arriving at either end (so the statement holds for every direction and substream while all the others are active). In every state such a history reaches, what B's application can read
     is a prefix of what A's application sent AND what A's application can read is a prefix of what B's sent. The step
     hypotheses (`Duplex.opOk`) are those of `Sys.opOk` for each view; for a delivery that is the half-window condition alone
     (`delivery_hypothesis_is_the_window`). -/
